@@ -338,7 +338,7 @@ Qed.
    SectionFlag -> Section.Flag, DecodeMode -> CodeBlock.DecodeMode, EdgeType -> EdgeLabel.Type,
    SymAttribute -> SymbolicExpression.Attribute).  `enum_ok nm v` is the reader's test `EnumClass(v)` on that table. *)
 Definition schema_enum_names : list string :=
-  ["EdgeType"; "DecodeMode"; "FileFormat"; "ISA"; "ByteOrder"; "SectionFlag"; "SymAttribute"].
+  ["ByteOrder"; "DecodeMode"; "EdgeType"; "FileFormat"; "ISA"; "SectionFlag"; "SymAttribute"].   (* sorted by name *)
 Definition schema_members (nm : string) : list (string * Z) :=
   match find (fun p => String.eqb (fst p) nm) schema_enums with Some p => snd p | None => [] end.
 Definition enum_total_check (nm : string) : bool :=
@@ -379,10 +379,13 @@ Qed.
 Theorem version_agrees : schema_protobuf_version = py_protobuf_version /\ py_ir_protobuf_version = py_protobuf_version.
 Proof. vm_compute. split; reflexivity. Qed.
 
-(* ---------- messages and fields ---------- *)
+(* ---------- messages and fields ----------
+   The literal lists below are written in the CANONICAL order of gen/Schema.v: messages sorted by name (byte order, so
+   "SymStackConst" < "Symbol"), the fields of a message sorted by field number.  A reordering of declarations in
+   proto/*.proto therefore changes neither gen/Schema.v nor these lists. *)
 Definition modelled_messages : list string :=
-  ["IR"; "CFG"; "Edge"; "EdgeLabel"; "Module"; "Section"; "ByteInterval"; "Block"; "CodeBlock"; "DataBlock";
-   "ProxyBlock"; "Symbol"; "SymbolicExpression"; "SymAddrConst"; "SymAddrAddr"; "AuxData"].
+  ["AuxData"; "Block"; "ByteInterval"; "CFG"; "CodeBlock"; "DataBlock"; "Edge"; "EdgeLabel"; "IR"; "Module";
+   "ProxyBlock"; "Section"; "SymAddrAddr"; "SymAddrConst"; "Symbol"; "SymbolicExpression"].
 Definition schema_msg_fields (nm : string) : list (string * Z * string * string * string) :=
   match find (fun p => String.eqb (fst p) nm) schema_messages with Some p => snd p | None => [] end.
 Definition fld_name (f : string * Z * string * string * string) : string := fst (fst (fst (fst f))).
@@ -393,19 +396,36 @@ Definition schema_oneofs (nm : string) : list (string * string * string) :=
 
 (* (message, field) -> where it lives in Model/Proto.v: message record field / content record field *)
 Definition modelled_fields : list (string * string) :=
-  [ ("IR", "uuid");                                 (* pIR.i_uuid                / cIR.cr_uuid *)
-    ("IR", "modules");                              (* pIR.i_modules             / cIR.cr_modules *)
-    ("IR", "aux_data");                             (* pIR.i_aux                 / cIR.cr_aux *)
-    ("IR", "version");                              (* pIR.i_version             / cIR.cr_version *)
-    ("IR", "cfg");                                  (* pIR.i_vertices + i_edges (the CFG message is inlined) *)
-    ("CFG", "vertices");                            (* pIR.i_vertices            / written from module_cfg_nodes; not read *)
+  [ ("AuxData", "type_name");                       (* pAux.a_type *)
+    ("AuxData", "data");                            (* pAux.a_data *)
+    ("Block", "offset");                            (* pBlock.b_off              / cBlock.cb_off *)
+    ("Block", "code");                              (* pBlock.b_val = PCode ..   / cBlock.cb_code = true *)
+    ("Block", "data");                              (* pBlock.b_val = PData ..   / cBlock.cb_code = false *)
+    ("ByteInterval", "uuid");                       (* pBI.bi_uuid               / cBI.ci_uuid *)
+    ("ByteInterval", "blocks");                     (* pBI.bi_blocks             / cBI.ci_blocks *)
+    ("ByteInterval", "symbolic_expressions");       (* pBI.bi_symx               / cBI.ci_symx *)
+    ("ByteInterval", "has_address");                (* pBI.bi_has_addr           / cBI.ci_addr <> None *)
+    ("ByteInterval", "address");                    (* pBI.bi_addr               / cBI.ci_addr *)
+    ("ByteInterval", "size");                       (* pBI.bi_size               / cBI.ci_size *)
+    ("ByteInterval", "contents");                   (* pBI.bi_contents           / cBI.ci_contents *)
     ("CFG", "edges");                               (* pIR.i_edges               / cIR.cr_edges *)
+    ("CFG", "vertices");                            (* pIR.i_vertices            / written from module_cfg_nodes; not read *)
+    ("CodeBlock", "uuid");                          (* PCode uuid                / cBlock.cb_uuid *)
+    ("CodeBlock", "size");                          (* PCode size                / cBlock.cb_size *)
+    ("CodeBlock", "decode_mode");                   (* PCode dm                  / cBlock.cb_dm *)
+    ("DataBlock", "uuid");                          (* PData uuid                / cBlock.cb_uuid *)
+    ("DataBlock", "size");                          (* PData size                / cBlock.cb_size *)
     ("Edge", "source_uuid");                        (* pEdge.e_src               / cEdge.ce_src *)
     ("Edge", "target_uuid");                        (* pEdge.e_dst               / cEdge.ce_dst *)
     ("Edge", "label");                              (* pEdge.e_label (presence = option) / cEdge.ce_label *)
     ("EdgeLabel", "conditional");                   (* pLabel.l_cond             / 2nd component of clabel *)
     ("EdgeLabel", "direct");                        (* pLabel.l_direct           / 3rd component of clabel *)
     ("EdgeLabel", "type");                          (* pLabel.l_type             / 1st component of clabel *)
+    ("IR", "uuid");                                 (* pIR.i_uuid                / cIR.cr_uuid *)
+    ("IR", "modules");                              (* pIR.i_modules             / cIR.cr_modules *)
+    ("IR", "aux_data");                             (* pIR.i_aux                 / cIR.cr_aux *)
+    ("IR", "version");                              (* pIR.i_version             / cIR.cr_version *)
+    ("IR", "cfg");                                  (* pIR.i_vertices + i_edges (the CFG message is inlined) *)
     ("Module", "uuid");                             (* pModule.m_uuid            / cModule.cm_uuid *)
     ("Module", "binary_path");                      (* pModule.m_binary_path     / cModule.cm_binary_path *)
     ("Module", "preferred_addr");                   (* pModule.m_preferred_addr  / cModule.cm_preferred_addr *)
@@ -414,47 +434,30 @@ Definition modelled_fields : list (string * string) :=
     ("Module", "isa");                              (* pModule.m_isa             / cModule.cm_isa *)
     ("Module", "name");                             (* pModule.m_name            / cModule.cm_name *)
     ("Module", "symbols");                          (* pModule.m_symbols         / cModule.cm_symbols *)
-    ("Module", "proxies");                          (* pModule.m_proxies         / cModule.cm_proxies *)
     ("Module", "sections");                         (* pModule.m_sections        / cModule.cm_sections *)
+    ("Module", "proxies");                          (* pModule.m_proxies         / cModule.cm_proxies *)
     ("Module", "aux_data");                         (* pModule.m_aux             / cModule.cm_aux *)
     ("Module", "entry_point");                      (* pModule.m_entry ([] = absent) / cModule.cm_entry *)
     ("Module", "byte_order");                       (* pModule.m_byte_order      / cModule.cm_byte_order *)
+    ("ProxyBlock", "uuid");                         (* element of pModule.m_proxies / element of cModule.cm_proxies *)
     ("Section", "uuid");                            (* pSection.s_uuid           / cSection.cs_uuid *)
     ("Section", "name");                            (* pSection.s_name           / cSection.cs_name *)
     ("Section", "byte_intervals");                  (* pSection.s_bis            / cSection.cs_bis *)
     ("Section", "section_flags");                   (* pSection.s_flags          / cSection.cs_flags *)
-    ("ByteInterval", "uuid");                       (* pBI.bi_uuid               / cBI.ci_uuid *)
-    ("ByteInterval", "blocks");                     (* pBI.bi_blocks             / cBI.ci_blocks *)
-    ("ByteInterval", "symbolic_expressions");       (* pBI.bi_symx               / cBI.ci_symx *)
-    ("ByteInterval", "has_address");                (* pBI.bi_has_addr           / cBI.ci_addr <> None *)
-    ("ByteInterval", "address");                    (* pBI.bi_addr               / cBI.ci_addr *)
-    ("ByteInterval", "size");                       (* pBI.bi_size               / cBI.ci_size *)
-    ("ByteInterval", "contents");                   (* pBI.bi_contents           / cBI.ci_contents *)
-    ("Block", "offset");                            (* pBlock.b_off              / cBlock.cb_off *)
-    ("Block", "code");                              (* pBlock.b_val = PCode ..   / cBlock.cb_code = true *)
-    ("Block", "data");                              (* pBlock.b_val = PData ..   / cBlock.cb_code = false *)
-    ("CodeBlock", "uuid");                          (* PCode uuid                / cBlock.cb_uuid *)
-    ("CodeBlock", "size");                          (* PCode size                / cBlock.cb_size *)
-    ("CodeBlock", "decode_mode");                   (* PCode dm                  / cBlock.cb_dm *)
-    ("DataBlock", "uuid");                          (* PData uuid                / cBlock.cb_uuid *)
-    ("DataBlock", "size");                          (* PData size                / cBlock.cb_size *)
-    ("ProxyBlock", "uuid");                         (* element of pModule.m_proxies / element of cModule.cm_proxies *)
-    ("Symbol", "uuid");                             (* pSymbol.y_uuid            / cSymbol.cy_uuid *)
-    ("Symbol", "value");                            (* pSymbol.y_payload = PPValue v / cSymbol.cy_payload = CPVal v *)
-    ("Symbol", "referent_uuid");                    (* pSymbol.y_payload = PPRef u   / cSymbol.cy_payload = CPRef u *)
-    ("Symbol", "name");                             (* pSymbol.y_name            / cSymbol.cy_name *)
-    ("Symbol", "at_end");                           (* pSymbol.y_at_end          / cSymbol.cy_at_end *)
-    ("SymbolicExpression", "addr_const");           (* pExpr.x_val = PAddrConst ..   / cExpr.cx_val = CAddrConst .. *)
-    ("SymbolicExpression", "addr_addr");            (* pExpr.x_val = PAddrAddr ..    / cExpr.cx_val = CAddrAddr .. *)
-    ("SymbolicExpression", "attribute_flags");      (* pExpr.x_attrs             / cExpr.cx_attrs *)
-    ("SymAddrConst", "offset");                     (* PAddrConst off            / CAddrConst off *)
-    ("SymAddrConst", "symbol_uuid");                (* PAddrConst sym            / CAddrConst sym *)
     ("SymAddrAddr", "scale");                       (* PAddrAddr scale           / CAddrAddr scale *)
     ("SymAddrAddr", "offset");                      (* PAddrAddr off             / CAddrAddr off *)
     ("SymAddrAddr", "symbol1_uuid");                (* PAddrAddr s1              / CAddrAddr s1 *)
     ("SymAddrAddr", "symbol2_uuid");                (* PAddrAddr s2              / CAddrAddr s2 *)
-    ("AuxData", "type_name");                       (* pAux.a_type *)
-    ("AuxData", "data")                             (* pAux.a_data *)
+    ("SymAddrConst", "offset");                     (* PAddrConst off            / CAddrConst off *)
+    ("SymAddrConst", "symbol_uuid");                (* PAddrConst sym            / CAddrConst sym *)
+    ("Symbol", "uuid");                             (* pSymbol.y_uuid            / cSymbol.cy_uuid *)
+    ("Symbol", "value");                            (* pSymbol.y_payload = PPValue v / cSymbol.cy_payload = CPVal v *)
+    ("Symbol", "name");                             (* pSymbol.y_name            / cSymbol.cy_name *)
+    ("Symbol", "referent_uuid");                    (* pSymbol.y_payload = PPRef u   / cSymbol.cy_payload = CPRef u *)
+    ("Symbol", "at_end");                           (* pSymbol.y_at_end          / cSymbol.cy_at_end *)
+    ("SymbolicExpression", "addr_const");           (* pExpr.x_val = PAddrConst ..   / cExpr.cx_val = CAddrConst .. *)
+    ("SymbolicExpression", "addr_addr");            (* pExpr.x_val = PAddrAddr ..    / cExpr.cx_val = CAddrAddr .. *)
+    ("SymbolicExpression", "attribute_flags")       (* pExpr.x_attrs             / cExpr.cx_attrs *)
   ].
 
 (* the one-of groups, modelled by the three-constructor types pBlockVal, pPayload, pExprVal (third constructor = unset) *)
